@@ -156,6 +156,9 @@ fn main() {
             "P" => {
                 if !loaded {
                     "parse notable".to_string()
+                } else if f[1] == "LR" && tab().conflicts > 0 {
+                    // the compiler rejects such a table in LR mode; never driven
+                    "parse skipped-conflicts".to_string()
                 } else {
                     let glr = f[1] == "GLR";
                     let partial = f[2] == "1";
@@ -171,7 +174,7 @@ fn main() {
                                 run::run_lr(input, partial)
                             }
                         },
-                        5000,
+                        3000,
                     );
                     format!("parse {r} #{m}")
                 }
